@@ -37,6 +37,11 @@ class ClassicalValueContract:
         self.prob = Shaped((self.X, self.Y), "self.prob_mat")
         return {"self": "self"}, [A >= 1, B >= 1]
 
+    def name(self, eng, ident):
+        if ident in ("float", "int", "complex", "bool"):
+            return Opaque("type", ident)
+        raise Unsupported("name %s" % ident)
+
     def attribute(self, eng, base, attr, env):
         if base == "self" and attr == "pred_mat":
             return self.pred
@@ -67,9 +72,12 @@ class ClassicalValueContract:
 
     def call(self, eng, e, args, kw, env, pc):
         name = ast.unparse(e.func)
-        if name == "np.copy":
+        if name == "np.copy" or (name == "np.array" and args and isinstance(args[0], Shaped) and kw.get("copy", True) is True):
+            # a fresh array of the same shape (np.array(x, dtype=...) copies by default)
             a = args[0]
             return Shaped(a.shape, "copy")
+        if name == "np.asarray" and args and isinstance(args[0], Shaped):
+            return args[0]  # no copy: the same array
         if name == "np.transpose":
             a, axes = args
             return Shaped(tuple(a.shape[i] for i in axes), "transposed")
